@@ -2,7 +2,7 @@
 from rules.engine import mir, q
 from rules.engine.mir import show
 from rules.engine.q import sig, sigv, force
-from rules.engine.sccp import V
+from rules.engine.sccp import V, C
 
 EXPLANATION = (
     "R1 selection atoms: in each of the three selection closures the kind test (Swap / LiqDeposit / LiqWithdraw), the pool-key parse, the unspent-output tests, "
@@ -129,6 +129,20 @@ def r2_canonical_keys(ctx):
         key = b.nname.replace(MM, "").replace("{closure#", "c").replace("}", "")
         where = b.where(bi)
         if not atoms:
+            # `from_bytes(data).filter(|k| k.left().to_bytes() < k.right().to_bytes())`: the same requirement as a filter predicate
+            flt = [(fb, fe) for fb, fe in q.call_exprs(b, "Option::filter") if len(fe[2]) == 2 and fe[2][0] == e and fe[2][1][0] == "closure"]
+            rets = q.ret_assignments(b)
+            if flt and len(rets) == 1 and rets[0][2] == flt[0][1]:
+                c = prog.body(flt[0][1][2][1][1])
+                CW = "Lt(Denom::to_bytes(PoolKey::left($2)), Denom::to_bytes(PoolKey::right($2)))"
+                catoms = [a for a, cn, abi in q.pick_atoms(c, lambda cn: cn == CW) if cn == CW] if c is not None else []
+                if catoms:
+                    v, _ = q.ret_value_under(c, {a: 0 for a in catoms})
+                    okf = v == C(0)
+                    r.check(okf, "canonical@" + key, "non-canonical key ⇒ filtered out (None)", "with left ≥ right the filter predicate can still be true", where)
+                    if okf:
+                        helpers.add(b.id)
+                    continue
             r.violation("noncanonical@" + key, "%s uses PoolKey::from_bytes(..) without requiring left < right: a reversed or equal-sided long-form key is accepted "
                         "(MEL paid into the SYM side …)" % b.nname, where)
             continue
